@@ -82,6 +82,24 @@ def replay_offset(cfg, w, tree):
         job = {"kind": "asm", "sources": [src]}
         res = driver.native([job], tree)[0]
         return dict(jobs=[job], source=src, expected=["ok-or-fail (a result or a reported error)"], observed=[res["status"], res.get("exc")], reproduced=res["status"] == "crash")
+    if shape in ("1+k", "k+sym"):
+        # a compound operand whose first leaf is a bare number: that number is the local label of that name (label-fixup), the rest is arithmetic
+        progs = [(".link 1000\n1: nop\n%s 1 + 2\n", 0o1002), (".link 1000\n1: nop\nnop\n%s 4 - 2 + 1\n4: nop\n", None), (".link 1000\n2: nop\n%s 2 - 0\n", 0o1000)] if shape == "1+k" else \
+                [(".link 1000\nlab: nop\n%s 2 + lab\n", 0o1002)]
+        jobs, exps = [], []
+        for tmpl, target in progs:
+            if target is None:
+                continue
+            src = tmpl % ("sob r1," if unsigned else "br")
+            n_before = src.count("nop")
+            here = 0o1000 + 2 * n_before
+            off = target - (here + 2)
+            word = (0o077100 + (-off // 2)) if unsigned else (0o000400 + (off // 2) % 256)
+            jobs.append({"kind": "asm", "sources": [src]})
+            exps.append(["ok", (b"\xa0\x00" * n_before + word.to_bytes(2, "little")).hex()])
+        res = driver.native(jobs, tree)
+        obs = [[r["status"]] + ([r["code_hex"]] if r["status"] == "ok" else []) for r in res]
+        return dict(jobs=jobs, expected=exps, observed=obs, reproduced=obs != exps)
     # distance from the word after the branch
     keys = [k for k in ("target", "target_base", "label_value", "k") if k in w]
     rel = w.get("rel", 0)
